@@ -8,4 +8,10 @@ import PycsepVerif.Model.Ecdf
 import PycsepVerif.Proofs.Ecdf
 import PycsepVerif.Properties.C09
 import PycsepVerif.Drive.C09
+import PycsepVerif.Generated
+import PycsepVerif.Properties.C02_Tables
+import PycsepVerif.Properties.C04_Tables
+import PycsepVerif.Properties.C14_Tables
+import PycsepVerif.Properties.C18_Tables
+import PycsepVerif.Properties.C19_Tables
 -- REGISTER-LIB (imports of new Model/Proofs/Properties/Drive modules above this line)
